@@ -6,6 +6,9 @@ from pyvc.contract import (contract, requires, ensures, LoopSpec, clause, implie
 SER = "html5lib.serializer.HTMLSerializer"
 TYPES = ("Doctype", "Characters", "SpaceCharacters", "StartTag", "EndTag", "EmptyTag", "Comment")
 RAWTEXT = frozenset(["style", "script", "xmp", "iframe", "noembed", "noframes", "noscript"])
+# html5lib's void element table (constants.voidElements), which decides where a trailing solidus is written
+VOID = frozenset(["area", "base", "br", "col", "command", "embed", "event-source", "hr", "img", "input", "link", "meta",
+                  "param", "source", "track", "wbr"])
 BOUND = "at most 1 (quick; then the tag name is one of a/input/style) / 2 (thorough) attributes per tag; boolean-attribute minimisation only in the thorough tier; output encoding None; Entity tokens not covered"
 
 
@@ -200,3 +203,46 @@ def _step_replay(inputs, ghost, clause):
 
 
 Serialize.step_replay = staticmethod(_step_replay)
+
+
+# ------------------------------------------------------------------------------------------- two-token streams
+# The step contract above is about ONE arbitrary iteration from an arbitrary raw-text state.  This second contract runs
+# the real loop (no loop contract: the two iterations are executed) from the real initial state on every stream
+# <start tag of any name, no attributes> <text token>: whatever state the loop carries from the tag to the text is the
+# code's own.  Bounded (two tokens), replayable on the real serializer.
+def _two_tokens_call(i):
+    from html5lib.serializer import HTMLSerializer
+    opts = {k: v for k, v in i["self"].items() if k in HTMLSerializer.options}
+    s = HTMLSerializer(**opts)
+    i["self"] = s
+    return list(s.serialize(i["treewalker"]))
+
+
+@contract(SER + ".serialize")
+class SerializeTagThenText:
+    props = ("C08", "C10", "C07")
+    modular = False
+    loops = {"For1": LoopSpec()}           # no invariant, no element: the loop is executed on the concrete two-token list
+
+    def inputs(S):
+        name = S.str("name")
+        data = S.str("text")
+        start = S.dict({"type": "StartTag", "name": name, "namespace": S.one_of(None, lambda: S.str("namespace")), "data": S.dict({})})
+        chars = S.dict({"type": "Characters", "data": data})
+        ser = serializer(S)
+        ser.fields["errors"] = S.list([])
+        return dict(self=ser, treewalker=S.list([start, chars]), encoding=None, name=name, data=data)
+
+    call = _two_tokens_call
+
+    @ensures("C08", "C10", "C07")
+    @bounded("streams of one start tag (any name, no attributes) followed by one text token")
+    def text_after_a_start_tag_is_escaped_unless_raw_text(self, name, data, result):
+        out = "".join(result)
+        tag = "<" + name
+        if name in VOID and self.use_trailing_solidus:
+            tag = tag + (" /" if self.space_before_trailing_solidus else "/")
+        tag = tag + ">"
+        if name in RAWTEXT and not self.escape_rcdata:
+            return out == tag + data and (("</" not in data) or len(self.errors) > 0)
+        return out == tag + data.replace("&", "&amp;").replace(">", "&gt;").replace("<", "&lt;")
